@@ -481,6 +481,17 @@ def worker(args):
         sc = deep_scenario(seed, i)
         if (hash_key(sc['program'], sc['N']) if sc['N'] else i) % parts == part:
             mine.append((order, i, sc))
+    if part == 0:
+        for n_, lim in ((40, 400), (33, 200), (60, 3000)):
+            sc = dict(driver='s_c17', family='W', N=n_, limit=lim, seed=seed)
+            try:
+                ok, detail = S.with_timeout(120, run_wide, sc)
+            except S.Timeout:
+                acc.skip('timeout')
+                continue
+            acc.evaluation(digest(sorted(sc.items())))
+            if not ok:
+                acc.fail((10 ** 6, n_, 0), sc, detail)
     mine.sort(key=lambda t: (t[2]['program'], t[2]['N'], t[0]))
     for order, i, sc in mine:
         try:
@@ -505,6 +516,35 @@ def worker(args):
     return acc.pack()
 
 
+def run_wide(sc):
+    """a finite, SHALLOW search with many answers (n*n pairs of n facts) under a generous limit: no depth error can occur, so the
+    result is the complete answer list, in order, however long it is"""
+    n = sc['N']
+    real = S.RealEngine()
+    yp = real.yp
+    for i in range(n):
+        yp.assert_fact(yp.atom('d'), [i])
+    from yldprolog.compiler import compile_prolog_from_string
+    yp.load_script_from_string(compile_prolog_from_string('wide(X, Y) :- d(X), d(Y).\n'))
+    X, Y = yp.variable(), yp.variable()
+    pre = sys.getrecursionlimit()
+    try:
+        res = yp.evaluate_bounded(yp.query('wide', [X, Y]), lambda _x: (E.to_python(X), E.to_python(Y)), sc['limit'])
+    finally:
+        after = sys.getrecursionlimit()
+        sys.setrecursionlimit(S.BASE_RECURSION)
+    want = [(i, j) for i in range(n) for j in range(n)]
+    probs = []
+    if res != want:
+        probs.append('%d results for a search with %d answers that needs only a few frames (limit %d)%s'
+                     % (len(res), len(want), sc['limit'], '' if res == want[:len(res)] else '; not even a prefix'))
+    if after != pre:
+        probs.append('recursion limit %d afterwards, %d before' % (after, pre))
+    if X._is_bound or Y._is_bound:
+        probs.append('query variables still bound')
+    return not probs, '; '.join(probs) or 'ok'
+
+
 def hash_key(kind, n):
     return int(digest(kind, n), 16)
 
@@ -514,6 +554,8 @@ def run(seed, count):
 
 
 def replay(sc):
+    if sc['family'] == 'W':
+        return run_wide(sc)
     if sc['family'] == 'D':
         ok, detail, _nt, _info = run_deep(sc)
         return ok is not False, detail
